@@ -1,6 +1,6 @@
 """C12 — curve values carry exact sensitivities to their nodes at every derivative order."""
 import re
-import cel, hir, cfg as cfgmod
+import cel, hir, paths, cfg as cfgmod
 from cel import Poly, Rec, Alt, Sym, Tup, Seq, Coll, Unsupported
 
 D1, D2 = "dual::dual::Dual", "dual::dual::Dual2"
@@ -195,12 +195,10 @@ def run(ck, facts, tier):
             if base.tag[1] == "None":
                 ck.check(r3, key, isinstance(res, Sym) and res.tag[:2] == ("ctor", "Err"), "missing index base does not give Err: %s" % cel.vfmt(res)[:200], where, sample="Err(..)")
             else:
-                want_c = cel.cmp_sym("Lt", Poly.atom("x"), Poly.atom("first_key"))
-                ok = isinstance(res, Alt) and len(res.alts) == 2 and res.alts[0][0] == ("if", cel.vkey(want_c))
-                if ok:
-                    a, b = res.alts[0][1], res.alts[1][1]
-                    ok = cel.vkey(a) == cel.vkey(Sym("ctor", "Ok", Sym("ctor", "F64", Poly.const(0)))) and \
-                        cel.vkey(b) == cel.vkey(Sym("ctor", "Ok", Sym("ctor", "F64", Poly.atom("ib") * Poly.atom("cv").inv())))
+                want_c = paths.lit(cel.cmp_sym("Lt", Poly.atom("x"), Poly.atom("first_key"), True))      # i64 timestamps
+                zero = cel.vkey(Sym("ctor", "Ok", Sym("ctor", "F64", Poly.const(0))))
+                quot = cel.vkey(Sym("ctor", "Ok", Sym("ctor", "F64", Poly.atom("ib") * Poly.atom("cv").inv())))
+                ok = paths.path_set(res) == {(frozenset([want_c]), zero), (frozenset([(want_c[0], not want_c[1])]), quot)}
                 ck.check(r3, key, ok, "index value is not [date < first node] 0 | base / curve value: %s" % cel.vfmt(res)[:400], where, sample="x < first_key: 0 ; else ib / curve(date)")
     from rules import deps
     deps.include_ad(ck, facts, tier)
